@@ -1,0 +1,165 @@
+//go:build verif
+
+package syntax
+
+import (
+	"errors"
+	"reflect"
+	"strings"
+	"unsafe"
+)
+
+// Verification hooks for property C08 (parser/printer reuse): the field lists
+// of Parser and Printer, a way to overwrite one field with a value that differs
+// from its current one ("poison"), and direct access to the reset methods.
+
+// VerifField describes one struct field.
+type VerifField struct {
+	Name string
+	Type string
+	Kind string
+}
+
+func verifFields(t reflect.Type) []VerifField {
+	out := make([]VerifField, 0, t.NumField())
+	for i := range t.NumField() {
+		f := t.Field(i)
+		out = append(out, VerifField{Name: f.Name, Type: f.Type.String(), Kind: f.Type.Kind().String()})
+	}
+	return out
+}
+
+// VerifParserFields lists the fields of Parser in declaration order.
+func VerifParserFields() []VerifField { return verifFields(reflect.TypeFor[Parser]()) }
+
+// VerifPrinterFields lists the fields of Printer in declaration order.
+func VerifPrinterFields() []VerifField { return verifFields(reflect.TypeFor[Printer]()) }
+
+// VerifParserReset calls p.reset().
+func VerifParserReset(p *Parser) { p.reset() }
+
+// VerifPrinterReset calls p.reset().
+func VerifPrinterReset(p *Printer) { p.reset() }
+
+var errVerifPoison = errors.New("verif poison error")
+
+func verifSettable(v reflect.Value) reflect.Value {
+	return reflect.NewAt(v.Type(), unsafe.Pointer(v.UnsafeAddr())).Elem()
+}
+
+// verifPoison overwrites v (addressable) with a value different from its
+// current one; it reports whether it knew how.
+func verifPoison(v reflect.Value, depth int) bool {
+	v = verifSettable(v)
+	switch v.Kind() {
+	case reflect.Bool:
+		v.SetBool(!v.Bool())
+	case reflect.Int, reflect.Int8, reflect.Int16, reflect.Int32, reflect.Int64:
+		v.SetInt(v.Int() + 3)
+	case reflect.Uint, reflect.Uint8, reflect.Uint16, reflect.Uint32, reflect.Uint64, reflect.Uintptr:
+		v.SetUint(v.Uint() + 3)
+	case reflect.String:
+		v.SetString(v.String() + "PSN")
+	case reflect.Array:
+		for i := range v.Len() {
+			if !verifPoison(v.Index(i), depth+1) {
+				return false
+			}
+		}
+	case reflect.Slice:
+		n := v.Len() + 2
+		s := reflect.MakeSlice(v.Type(), n, n)
+		for i := range n {
+			e := s.Index(i)
+			switch e.Kind() {
+			case reflect.Pointer:
+				e.Set(reflect.New(e.Type().Elem()))
+			case reflect.Slice, reflect.Struct:
+				// leave zero
+			default:
+				verifPoison(e, depth+1)
+			}
+		}
+		v.Set(s)
+	case reflect.Pointer:
+		if v.IsNil() {
+			v.Set(reflect.New(v.Type().Elem()))
+		} else {
+			v.Set(reflect.Zero(v.Type()))
+		}
+	case reflect.Interface:
+		switch {
+		case v.Type() == reflect.TypeFor[error]():
+			if v.IsNil() {
+				v.Set(reflect.ValueOf(errVerifPoison))
+			} else {
+				v.Set(reflect.Zero(v.Type()))
+			}
+		case reflect.TypeFor[*strings.Reader]().Implements(v.Type()):
+			v.Set(reflect.ValueOf(strings.NewReader("PSN `\"${")))
+		default:
+			v.Set(reflect.Zero(v.Type()))
+		}
+	case reflect.Struct:
+		if depth > 2 {
+			return false
+		}
+		for i := range v.NumField() {
+			verifPoison(v.Field(i), depth+1)
+		}
+	default:
+		return false
+	}
+	return true
+}
+
+func verifPoisonField(ptr any, field string) bool {
+	f := reflect.ValueOf(ptr).Elem().FieldByName(field)
+	if !f.IsValid() {
+		return false
+	}
+	return verifPoison(f, 0)
+}
+
+// VerifPoisonParser overwrites the named Parser field; false if unknown.
+func VerifPoisonParser(p *Parser, field string) bool {
+	switch field {
+	case "quote": // keep it a valid single-state value
+		if p.quote == dblQuotes {
+			p.quote = arithmExpr
+		} else {
+			p.quote = dblQuotes
+		}
+		return true
+	case "tok":
+		if p.tok == _Newl {
+			p.tok = _LitWord
+		} else {
+			p.tok = _Newl
+		}
+		return true
+	case "lang":
+		if p.lang == LangZsh {
+			p.lang = LangPOSIX
+		} else {
+			p.lang = LangZsh
+		}
+		return true
+	case "r":
+		if p.r == '\n' {
+			p.r = runeEOF
+		} else {
+			p.r = '\n'
+		}
+		return true
+	case "hdocStops":
+		p.hdocStops = append([][]byte{[]byte("PSN")}, p.hdocStops...)
+		return true
+	}
+	return verifPoisonField(p, field)
+}
+
+// VerifPoisonPrinter overwrites the named Printer field; false if unknown.
+func VerifPoisonPrinter(p *Printer, field string) bool {
+	return verifPoisonField(p, field)
+}
